@@ -452,6 +452,10 @@ func c16Gen(r *vfRand, adv bool) c16In {
 			used[f] = true
 			out = append(out, c15Sub{F: f, Q: r.Intn(2)})
 		}
+		if r.Chance(1, 6) {
+			// the same filter twice in one SUBSCRIBE packet: the last QoS counts, in the trie and in the session
+			out = append(out, c15Sub{F: out[0].F, Q: 1 - out[0].Q})
+		}
 		return out
 	}
 	drop := func(i int, how string) {
@@ -490,7 +494,38 @@ func c16Gen(r *vfRand, adv bool) c16In {
 			in.Ops = append(in.Ops, c16Op{Op: "pub", Topic: t})
 		}
 	}
-	switch shape := r.Intn(10); {
+	switch shape := r.Intn(11); {
+	case shape == 10:
+		// a chain of reconnects / takeovers of one persistent session; BETWEEN two of them the subscription set
+		// changes without changing its size (QoS of a known filter, or one filter swapped for another): after every
+		// reconnect the live set (filters AND QoS) must be the session's set at that moment
+		connect("A", false)
+		f, g := c16Filters[r.Intn(len(c16Filters))], c16Filters[r.Intn(len(c16Filters))]
+		q := r.Intn(2)
+		in.Ops = append(in.Ops, c16Op{Op: "sub", K: 0, Subs: []c15Sub{{F: f, Q: q}}})
+		if r.Bool() {
+			in.Ops = append(in.Ops, c16Op{Op: "sub", K: 0, Subs: []c15Sub{{F: "c", Q: r.Intn(2)}}})
+		}
+		rounds := r.Range(2, 3)
+		for i := 1; i <= rounds; i++ {
+			if r.Chance(1, 4) {
+				drop(len(open)-1, r.PickStr("close", "disconnect")) // plain reconnect instead of a takeover
+			}
+			connect("A", false)
+			pubAll()
+			k := next - 1
+			if r.Bool() || f == g {
+				q = 1 - q
+				in.Ops = append(in.Ops, c16Op{Op: "sub", K: k, Subs: []c15Sub{{F: f, Q: q}}})
+			} else {
+				in.Ops = append(in.Ops, c16Op{Op: "unsub", K: k, Fs: []string{f}})
+				in.Ops = append(in.Ops, c16Op{Op: "sub", K: k, Subs: []c15Sub{{F: g, Q: r.Intn(2)}}})
+				f, g = g, f
+			}
+		}
+		connect("A", false)
+		pubAll()
+		return in
 	case shape == 9:
 		// the device reconnects and subscribes WHILE the broker is closing its old connection (admin delete, or the
 		// old connection's own teardown): the new connection's registration, session, subscriptions and delivery must be intact
